@@ -80,6 +80,8 @@ def solve(pc, goal, want_model=True, z3_ms=None, cvc5_ms=None):
         s.add(c)
     s.add(z3.Not(goal))
     r = s.check()
+    if r == z3.unknown and (cvc5_ms or CVC5_TIMEOUT_MS) <= 0:
+        return "undecided", None, time.time() - t0, "z3", "z3 unknown(%s)" % s.reason_unknown()
     if r == z3.unsat:
         return "discharged", None, time.time() - t0, "z3", ""
     if r == z3.sat:
@@ -186,9 +188,13 @@ class SymCtx:
         from .proxies import SReal
         return SReal(z3.Real(self.fresh_name(name)))
 
-    def str(self, name):
+    def str(self, name, latin1=False):
+        """latin1=True: text decoded from the wire (HTTP header text is latin-1): code points <= 0xFF."""
         from .proxies import SStr
-        return SStr(z3.String(self.fresh_name(name)), False)
+        v = SStr(z3.String(self.fresh_name(name)), False, latin1)
+        if latin1:
+            self.assume_z3(z3.InRe(v.t, z3.Star(z3.Range(chr(0), chr(255)))))
+        return v
 
     def bytes(self, name):
         from .proxies import SStr
@@ -433,7 +439,7 @@ class ConcCtx:
         self.values[n] = v
         return v
 
-    def str(self, name):
+    def str(self, name, latin1=False):
         return self._str(name, False)
 
     def bytes(self, name):
